@@ -186,7 +186,9 @@ def st_fss(conf):
 
 
 def st_pdu(kind, conf_strategy=None, small=False):
-    cs = conf_strategy if conf_strategy is not None else st_conf(segctrl=(kind == "filedata"))
+    # the segmentation-control bit has a meaning for File Data only, but it is a header bit like any other: whatever the caller's
+    # configuration says is packed, and a decoder must hand it back
+    cs = conf_strategy if conf_strategy is not None else st_conf(segctrl=True)
     return cs.flatmap(lambda c: _st_pdu_for(kind, c, small))
 
 
@@ -493,11 +495,13 @@ def pdu_histories(p, want: bytes, wo: dict, decode, tag="hist", decode_other=Non
     from spacepackets.cfdp import defs as d
     from spacepackets.util import ByteFieldGenerator
 
-    from .core import eq, pack_fresh, scribble
+    from .core import copies_equal, eq, pack_fresh, scribble
 
     devs = []
     kind = p["kind"]
     c = p["conf"]
+    copies_equal(devs, f"{tag}.copy_of_constructed", build_pdu(p), lambda o: bytes(o.pack()), want)
+    copies_equal(devs, f"{tag}.copy_of_decoded", decode(want), lambda o: obs_pdu(o, kind), wo)
     # equality does not depend on whether either side was ever packed; enumerated parameters may be given as plain integers
     never_packed = build_pdu(p)
     eq(devs, f"{tag}.eq_decoded_vs_never_packed", bool(decode(want) == never_packed) and bool(never_packed == decode(want)), True)
